@@ -18,7 +18,7 @@ def gen_examples(rng, exotic=None):
     ex = gens.example_list(rng, 12, exotic)
     if rng.random() < 0.15:
         # digit-like and non-ASCII decimal digits, punctuation pairs
-        ex += [rng.choice(['²', '³', '½', '٣', '５', 'a²', '1²', '^-', '-^', '^', '-', ']-', '\\', 'a\\b', 'é1', 'Ⅷ', 'x_y',
+        ex += [rng.choice(['10$', '25$', 'US$', 'a=$', '99$', '\\$', '²', '³', '½', '٣', '５', 'a²', '1²', '^-', '-^', '^', '-', ']-', '\\', 'a\\b', 'é1', 'Ⅷ', 'x_y',
                            'a.b', 'a-b', ' a', 'a ', '\ta', 'a\n', '\n', 'a\nb']) for _ in range(rng.randint(1, 3))]
     if rng.random() < 0.12:
         # a wide group: > max_strings_in_group distinct values in one fragment, the late ones with new characters
